@@ -28,6 +28,20 @@ Theorem C18_no_call_on_error : forall ps,
   s_calls (sess_run ps) = length (filter is_call ps).
 Proof. intros ps. exact (proj2 (proj2 (sess_run_spec ps))). Qed.
 
+(** Concurrent sessions on one pool do not see each other's output: for every number of sessions
+    and every interleaving of their lines, session i ends exactly as if it had run alone on the
+    lines addressed to it (each session owns its response buffer and its parser's stream; that the
+    implementation does is checked by the two-session correspondence). *)
+Theorem C18_sessions_isolated : forall n evs i,
+  i < n -> nth_error (multi_run n evs) i = Some (sess_run (proj_sess i evs)).
+Proof. exact multi_run_isolated. Qed.
+
+Example C18_two_sessions_example :
+  map s_replies (multi_run 2 [(0, PHelp "usage: long help"); (1, POk (CValue "7"));
+                              (0, POk CNone); (1, PArgError "bad")])
+  = [[append "usage: long help" nl; append "ok" nl]; [append "7" nl; append "bad" nl]].
+Proof. vm_compute. reflexivity. Qed.
+
 (** Non-vacuity: a long help reply followed by a short answer does not leak. *)
 Example C18_example :
   s_replies (sess_run [PHelp "usage: a very long help text"; POk CNone; PArgError "bad";
@@ -39,3 +53,4 @@ Print Assumptions C18_one_reply_per_line.
 Print Assumptions C18_reply_is_own_output.
 Print Assumptions C18_buffer_empty.
 Print Assumptions C18_no_call_on_error.
+Print Assumptions C18_sessions_isolated.
